@@ -205,3 +205,33 @@ package resolver
 //@   assert at call middleware.ValidatedNegativeProofForResponse#1: arg1 == lastret("(*middleware/resolver.Resolver).authority#1") && lastret("(*middleware/resolver.Resolver).authority#1", 1) == nil
 //@   assert at call internal/dnsutil.HasNSEC3OptOut#1: arg1 == lastret("middleware.ValidatedNegativeProofForResponse").Zone
 //@   assert at return#2: result1 == nil && result0 == lastret("(*middleware/resolver.Resolver).authority#1") && lastret("(*middleware/resolver.Resolver).authority#1", 1) == nil && lastret("middleware.ValidatedNegativeProofForResponse", 1) && lastret("middleware.ValidatedNegativeProofForResponse").Aggressive && lastret("middleware.ValidatedNegativeProofForResponse").Proof != nil && !lastret("internal/dnsutil.HasNSEC3OptOut")
+//@
+//@ # ---- C11: limiter slots are never leaked. A refused acquire gives its reservation back before returning; a granted
+//@ # one holds exactly one unit, which the returned release function gives back on the same bucket
+//@ func (*zoneInflightLimiter).acquire
+//@   abstract
+//@   nosafety all pre
+//@   assert at call (*sync/atomic.Int32).Add#1: arg1 == 1
+//@   assert at call (*sync/atomic.Int32).Add#2: arg1 == -1
+//@   assert at return#1: !result1 && calls("(*sync/atomic.Int32).Add") == 2
+//@   assert at return#2: result1 && calls("(*sync/atomic.Int32).Add") == 1 && result0 != nil
+//@ func (*zoneInflightLimiter).acquire$1
+//@   abstract
+//@   nosafety all pre
+//@   assert at call (*sync/atomic.Int32).Add#1: arg1 == -1 && arg0 == bucket
+//@   assert at return: calls("(*sync/atomic.Int32).Add") == 1
+//@
+//@ # ---- C10 / C11: a lookup result shared with other waiters is never handed out as the shared object: each caller gets
+//@ # its own copy, stamped with its own query ID; the leader works on a private copy of a request it does not own; the
+//@ # leader's closure gives back every slot it took (zone quota via its release function)
+//@ func (*Resolver).groupLookup
+//@   abstract
+//@   nosafety all pre
+//@   assert at store dns.MsgHdr.Id#1: lastret("(*middleware/resolver.SingleflightWrapper).TimedDoChanWithRole", 1) ==> target == lastret("(*github.com/miekg/dns.Msg).Copy#2")
+//@   assert at store dns.MsgHdr.Id#1: value == req.Id
+//@   assert at call (*middleware/resolver.SingleflightWrapper).TimedDoChanWithRole#1: !owned ==> calls("(*github.com/miekg/dns.Msg).Copy") == 1
+//@
+//@ func (*Resolver).groupLookup$1
+//@   abstract
+//@   nosafety all pre
+//@   assert at call (*middleware/resolver.Resolver).lookup#1: arg3 == leaderReq && arg4 == servers
